@@ -94,7 +94,41 @@ func c01Devs() []c01Dev {
 		{"vote+failed-tx", tx0(func(t *cargen.TxShape) { t.Vote, t.Failed = true, true })},
 		{"loaded-accounts", tx0(func(t *cargen.TxShape) { t.Loaded = []int{2} })},
 	}
+	// exact section payload sizes (CID + data) on both sides of the varint-width boundaries: the pad that
+	// produces each size is found by generating the transaction object and measuring it
+	for _, target := range []int{127, 128, 129, 16383, 16384, 16385, 16511, 16512} {
+		target := target
+		if pad, ok := c01PadForPayload(target); ok {
+			devs = append(devs, c01Dev{fmt.Sprintf("tx-section-payload=%d", target), tx0(func(t *cargen.TxShape) { t.TxPad = pad; t.NoMeta = true })})
+		}
+	}
 	return devs
+}
+
+// c01PadForPayload searches the instruction-data padding for which the first transaction object's section
+// payload (CID bytes + node bytes) is exactly target bytes.
+func c01PadForPayload(target int) (int, bool) {
+	measure := func(pad int) int {
+		s := c01Base()
+		s.Blocks[0].Entries[0][0].TxPad = pad
+		s.Blocks[0].Entries[0][0].NoMeta = true
+		t := cargen.Generate(s)
+		o := t.Objects[t.Txs[0].Obj]
+		return len(o.Cid.Bytes()) + len(o.Data)
+	}
+	base := measure(0)
+	if base > target {
+		return 0, false
+	}
+	pad := target - base
+	for tries := 0; tries < 40 && pad >= 0; tries++ {
+		got := measure(pad)
+		if got == target {
+			return pad, true
+		}
+		pad -= got - target
+	}
+	return 0, false
 }
 
 type c01Case struct {
